@@ -102,6 +102,12 @@ GRAMMARS = {
     # a wide choice (a command or keyword list): more alternatives than any cap on list lengths, message widths, columns
     "wide": "start = cmd $ ;\ncmd = 'add' | 'bind' | 'call' | 'copy' | 'drop' | 'edit' | 'find' | 'grep' | 'help' | 'init' | 'join' | 'kill' | 'list' | 'move' | 'next' | 'open' | 'pull' | 'push' | 'quit' | 'redo' | 'save' | 'show' | 'sync' | 'tag' | 'undo' | 'view' ;\n",
     "wide_b": "start = cmd $ ;\ncmd = 'add' ~ /\\d+/ | 'bind' | 'call' | 'copy' | 'drop' | 'edit' | 'find' | 'grep' | 'help' | 'init' | 'join' | 'kill' | 'list' | 'move' | 'next' | 'open' | 'pull' | 'push' | 'quit' | 'redo' | 'save' | 'show' | 'sync' | 'tag' | 'undo' | 'view' | name ;\nname = /[A-Z]+/ ;\n",
+    # tokens that contain characters which are name characters only under some settings ('_', '-', '$', '.'): whether
+    # the name guard applies to such a token is a matter of the settings of THIS call
+    "nc_a": "@@namechars :: '_'\nstart = 'end_if' /\\w+/ $ | /\\w+/ $ ;\n",
+    "nc_b": "start = 'end_if' /\\w+/ $ | /\\w+/ $ ;\n",
+    "nc_c": "@@namechars :: '-$'\nstart = 'a-b' /[\\w$-]+/ $ | 'x$' /[\\w$-]+/ $ | /[\\w$-]+/ $ ;\n",
+    "nc_d": "start = 'a-b' /[\\w$-]+/ $ | 'x$' /[\\w$-]+/ $ | /[\\w$-]+/ $ ;\n",
     # line ends as tokens
     "eol": "@@whitespace :: /[ \\t]+/\nstart = w '\\n' w $ ;\nw = /[a-z]+/ ;\n",
     # many distinct patterns: fills (and overflows) whatever process-wide cache of compiled patterns there is
@@ -161,6 +167,10 @@ INPUTS = {
     "kwparams_b": ["1", "a"],
     "eol": ["a\nb", "a b", "a \n b", "a\n\nb"],
     "bt": ["1-2", "1+2", "1", "1*2", "12-3"],
+    "nc_a": ["end_ifx", "end_if x", "end_if", "end_if_x"],
+    "nc_b": ["end_ifx", "end_if x", "end_if", "end_if_x"],
+    "nc_c": ["a-bc", "a-b c", "x$y", "a-b-c", "x$ y"],
+    "nc_d": ["a-bc", "a-b c", "x$y", "a-b-c", "x$ y"],
     "wide": ["add", "launch", "undo", "view", "", "vie"],
     "wide_b": ["add 1", "add", "launch", "VIEW", "view", "?"],
     "bt_b": ["1-2", "a-b", "1", "a+1"],
@@ -174,7 +184,7 @@ for _g, _ts in INPUTS.items():
                 if _v not in _ts:
                     _ts.append(_v)
 FAMILIES = [["typed", "typed_b", "typed_c", "params", "typed_d", "typed_tok", "typed_s", "typed_n", "typed_e"], ["kw", "icase", "kw_b", "kw_c"], ["ref", "two", "choice", "ws", "choice_b"], ["lrec", "cut", "over", "named", "const", "lrec_b"],
-            ["nums", "nums_b"], ["us", "two"], ["cmt_a", "cmt_b", "cmt_c"], ["clo", "clo_b", "opt", "join", "nlist", "clo_n", "opt_n"], ["inh", "nomemo", "kwparams", "kwparams_b", "params"], ["eol", "ws"], ["wide", "wide_b", "kw"], ["bt", "bt_b", "lrec", "choice"], ["tok_a", "tok_b", "pat_a", "pat_b"], ["cn_a", "cn_b", "cn_c", "cn_d", "const"]]
+            ["nums", "nums_b"], ["us", "two"], ["cmt_a", "cmt_b", "cmt_c"], ["clo", "clo_b", "opt", "join", "nlist", "clo_n", "opt_n"], ["inh", "nomemo", "kwparams", "kwparams_b", "params"], ["eol", "ws"], ["nc_a", "nc_b", "nc_c", "nc_d", "kw_c"], ["wide", "wide_b", "kw"], ["bt", "bt_b", "lrec", "choice"], ["tok_a", "tok_b", "pat_a", "pat_b"], ["cn_a", "cn_b", "cn_c", "cn_d", "const"]]
 FAMILY_RULES = {"us": ["start", "_start_", "_start", "start_", "__start__"], "bt": ["start", "num", "e", "n", "x"], "cmt_a": ["start", "num"], "clo": ["start", "item", "word", "num"], "inh": ["start", "base", "sub", "a", "num"], "eol": ["start", "w", "word"], "nums": ["start", "value", "integer", "real", "flag"], "tok_a": ["start"], "typed": ["start", "num", "word", "nosuch"], "kw": ["start", "name", "stmt"], "ref": ["start", "num", "word", "first", "second", "x", "nosuch"],
                 "lrec": ["start", "e", "n", "a", "b", "num"]}
 
@@ -1238,7 +1248,7 @@ def gen_call(rng, handles, models_only=False, allow_fault=True, focus=None):
     return op
 
 
-GOOD_INPUT = {"us": "x", "typed_s": "1", "typed_n": "1 a", "typed_e": "b", "wide": "undo", "wide_b": "add 1", "clo_n": "1", "opt_n": "let a = 1", "bt": "1-2", "bt_b": "a-b", "cmt_a": "1 (* c *) 2", "cmt_b": "1 {c} 2", "cmt_c": "1 2", "clo": "1", "clo_b": "1", "opt": "-1!", "join": "1", "nlist": "1,2", "inh": "x y", "nomemo": "x", "kwparams": "1", "kwparams_b": "1", "eol": "a\nb", "choice_b": "0x1f", "lrec_b": "a+b", "typed_tok": "begin 42", "kw_c": "IF", "manypat": "x71y", "cn_a": "7", "cn_b": "x", "cn_c": "x", "cn_d": "7 ab", "nums": "1", "nums_b": "1", "tok_a": "end if", "tok_b": "end  if", "pat_a": "12 34", "pat_b": "12  34", "ref": "12 ab", "choice": "a", "typed": "1", "typed_b": "1", "typed_c": "1 a", "typed_d": "ab", "params": "1", "kw": "x", "kw_b": "x",
+GOOD_INPUT = {"nc_a": "end_ifx", "nc_b": "end_ifx", "nc_c": "a-bc", "nc_d": "x$y", "us": "x", "typed_s": "1", "typed_n": "1 a", "typed_e": "b", "wide": "undo", "wide_b": "add 1", "clo_n": "1", "opt_n": "let a = 1", "bt": "1-2", "bt_b": "a-b", "cmt_a": "1 (* c *) 2", "cmt_b": "1 {c} 2", "cmt_c": "1 2", "clo": "1", "clo_b": "1", "opt": "-1!", "join": "1", "nlist": "1,2", "inh": "x y", "nomemo": "x", "kwparams": "1", "kwparams_b": "1", "eol": "a\nb", "choice_b": "0x1f", "lrec_b": "a+b", "typed_tok": "begin 42", "kw_c": "IF", "manypat": "x71y", "cn_a": "7", "cn_b": "x", "cn_c": "x", "cn_d": "7 ab", "nums": "1", "nums_b": "1", "tok_a": "end if", "tok_b": "end  if", "pat_a": "12 34", "pat_b": "12  34", "ref": "12 ab", "choice": "a", "typed": "1", "typed_b": "1", "typed_c": "1 a", "typed_d": "ab", "params": "1", "kw": "x", "kw_b": "x",
               "icase": "x", "ws": "ab cd", "const": "a", "named": "1", "over": "(1)", "lrec": "1", "cut": "x y", "two": "ab"}
 
 
@@ -1459,6 +1469,7 @@ _CMT = [{"comments": "\\{[^}]*\\}"}, {"eol_comments": ";[^\\n]*"}, {"comments": 
 RELEVANT_SETTINGS = {
     **{g: _MEMO for g in ("bt", "bt_b", "lrec", "lrec_b", "cut", "choice", "choice_b", "nomemo", "clo", "opt", "join")},
     **{g: _CASE for g in ("kw", "kw_b", "kw_c", "icase", "tok_a")},
+    **{g: [{"namechars": "_"}, {"namechars": "-$"}, {"namechars": ""}, {"nameguard": False}, {"nameguard": True}, {"namechars": "_-$."}] for g in ("nc_a", "nc_b", "nc_c", "nc_d")},
     **{g: _SPACE for g in ("ws", "tok_b", "pat_a", "pat_b", "eol", "ref")},
     **{g: _CMT for g in ("cmt_a", "cmt_b", "cmt_c")},
     **{g: [{"parseinfo": True}, {"parseinfo": True}, {"memoization": False}] for g in ("typed", "typed_c", "typed_tok", "nums")},
